@@ -669,19 +669,27 @@ func (it *flowAnalysis) condOpt(cond ssa.Value) (string, bool, bool) {
 }
 
 func (it *flowAnalysis) blockCtl(c *fctx, b *ssa.BasicBlock) lset {
-	return it.blockCtlRec(c, b, map[*ssa.BasicBlock]bool{})
+	return it.blockCtlRec(c, b, map[*ssa.BasicBlock]bool{}, true)
 }
 
-func (it *flowAnalysis) blockCtlRec(c *fctx, b *ssa.BasicBlock, seen map[*ssa.BasicBlock]bool) lset {
+// blockCtlLocal: the control labels of b that arise inside the function itself, without the ones the
+// context inherited from its call site.
+func (it *flowAnalysis) blockCtlLocal(c *fctx, b *ssa.BasicBlock) lset {
+	return it.blockCtlRec(c, b, map[*ssa.BasicBlock]bool{}, false)
+}
+
+func (it *flowAnalysis) blockCtlRec(c *fctx, b *ssa.BasicBlock, seen map[*ssa.BasicBlock]bool, inherit bool) lset {
 	l := lset{}
-	l.addAll(c.ctl)
+	if inherit {
+		l.addAll(c.ctl)
+	}
 	if seen[b] {
 		return l
 	}
 	seen[b] = true
 	for _, d := range c.cdeps[b] {
 		if d.branch != b {
-			l.addAll(it.blockCtlRec(c, d.branch, seen))
+			l.addAll(it.blockCtlRec(c, d.branch, seen, inherit))
 		}
 		iff, ok := lastInstr(d.branch).(*ssa.If)
 		if !ok {
@@ -938,6 +946,13 @@ func (it *flowAnalysis) step(c *fctx, b *ssa.BasicBlock, instr ssa.Instruction, 
 			if len(src.addrs) > 0 && it.structCopy(c, in, c.get(it, in.Addr), src, stripKB(ctl)) {
 				break
 			}
+		}
+		if al, ok := in.Addr.(*ssa.Alloc); ok && al.Parent() == c.fn {
+			// the cell of a local variable of this activation (a variable captured by a closure lives
+			// in such a cell): it exists only if the call happened, and so does every reader; the
+			// condition under which the function was called is not information the cell carries
+			it.store(c, in, c.get(it, in.Addr), c.get(it, in.Val), stripKB(it.blockCtlLocal(c, in.Block())))
+			break
 		}
 		it.store(c, in, c.get(it, in.Addr), c.get(it, in.Val), stripKB(ctl))
 	case *ssa.MapUpdate:
